@@ -364,16 +364,62 @@ pub fn gen_string(rng: &mut Rng, enabled: &[usize]) -> String {
     s
 }
 
-/// Variants of `s` that the profiles may or may not treat as equivalent (for compare calls).
+/// Variants of `s`: spellings the profiles may or may not treat as equivalent (for compare
+/// calls), and near-duplicates that collide with `s` under coarse keys (same length, same
+/// prefix, same suffix, same characters in another order) — what a memo or cache keyed by less
+/// than the whole input would confuse.
 fn variant(rng: &mut Rng, s: &str) -> String {
-    match rng.below(7) {
+    let chars: Vec<char> = s.chars().collect();
+    let same_width = |c: char, rng: &mut Rng| -> char {
+        // another character of the same UTF-8 length
+        let alts: &[char] = match c.len_utf8() {
+            1 => &['a', 'b', 'Z', 'q', '0', '7', '-', ' ', 'A'],
+            2 => &['\u{e9}', '\u{df}', '\u{3c3}', '\u{5d0}', '\u{a0}', '\u{c9}', '\u{3a3}'],
+            3 => &['\u{20ac}', '\u{3042}', '\u{ff21}', '\u{3000}', '\u{212b}', '\u{2003}', '\u{4e2d}'],
+            _ => &['\u{1f412}', '\u{1d400}', '\u{10400}', '\u{1f435}'],
+        };
+        let mut n = alts[rng.usize_below(alts.len())];
+        if n == c {
+            n = alts[(alts.iter().position(|x| *x == c).unwrap() + 1) % alts.len()];
+        }
+        n
+    };
+    match rng.below(12) {
         0 => s.to_uppercase(),
         1 => s.to_lowercase(),
         2 => format!(" {} ", s),
         3 => s.replace(' ', "\u{3000}"),
         4 => s.replace(' ', "  "),
         5 => s.chars().map(|c| if ('!'..='~').contains(&c) { char::from_u32(c as u32 + 0xfee0).unwrap() } else { c }).collect(),
-        _ => s.chars().rev().collect(),
+        6 => s.chars().rev().collect(),
+        // same byte length, same prefix: last character replaced
+        7 | 8 if !chars.is_empty() => {
+            let mut v = chars.clone();
+            let i = v.len() - 1;
+            v[i] = same_width(v[i], rng);
+            v.into_iter().collect()
+        }
+        // same byte length, same suffix: first character replaced
+        9 if !chars.is_empty() => {
+            let mut v = chars.clone();
+            v[0] = same_width(v[0], rng);
+            v.into_iter().collect()
+        }
+        // same length, same ends: a middle character replaced
+        10 if chars.len() >= 3 => {
+            let mut v = chars.clone();
+            let i = 1 + rng.usize_below(v.len() - 2);
+            v[i] = same_width(v[i], rng);
+            v.into_iter().collect()
+        }
+        // same multiset of characters: two adjacent characters swapped
+        _ if chars.len() >= 2 => {
+            let mut v = chars.clone();
+            let i = rng.usize_below(v.len() - 1);
+            v.swap(i, i + 1);
+            v.into_iter().collect()
+        }
+        _ => format!("{}a", s),
     }
 }
 
@@ -401,7 +447,7 @@ pub fn gen_workload(rng: &mut Rng, cfg: &GenCfg) -> Workload {
     while pool.len() < pool_n {
         let s = match rng.below(10) {
             0..=2 => rng.pick(LITERALS).to_string(),
-            3 if !pool.is_empty() => {
+            3..=5 if !pool.is_empty() => {
                 let base = pool[rng.usize_below(pool.len())].clone();
                 variant(rng, &base)
             }
